@@ -418,7 +418,7 @@ PROPS["C18"] = dict(
 
 PROPS["C07"] = dict(
     modules=["common", "hdrs", "c03", "c02", "c14", "c07"],
-    contracts=["ensure_absolute_path", "check_path_is_file", "wsgi.Pages.ensure_absolute_path", "asgi.Pages.ensure_absolute_path",
+    contracts=["ensure_absolute_path", "check_path_is_file", "BaseFiles.normalize_dir_path", "wsgi.Pages.ensure_absolute_path", "asgi.Pages.ensure_absolute_path",
                "wsgi.Files.__call__", "wsgi.Pages.__call__", "asgi.Files.__call__", "asgi.Pages.__call__"],
     refute={"quick": [2], "thorough": [1, 2, 3]},
     native="c07",
